@@ -122,7 +122,7 @@ theorem gstep_spec (topic : α → Option Bytes) (partition : α → Int) (out :
           · exact ⟨e, List.mem_append_right _ (List.mem_cons_of_mem _ h), het, q, hq, hqp⟩
       · exact ⟨(topic x, c ++ (partition x, x) :: d), by simp, rfl, (partition x, x), by simp, rfl⟩
       · exact ⟨(topic x, c ++ (partition x, y) :: d), by simp, rfl, (partition x, y), by simp, rfl⟩
-      · simp only [payloadCount_append, payloadCount_cons, hcd, List.length_append, List.length_cons]
+      · simp only [payloadCount_append, payloadCount_cons, List.length_append, List.length_cons]
     · rw [dictSet_append_of_not_mem old (partition x) x (fun e he hep => hp (List.mem_map.mpr ⟨e, he, hep⟩)),
         dictSet_split a b (topic x) _ _ ha hb]
       refine ⟨⟨?_, ?_⟩, ?_, ?_, Or.inl ⟨?_, ?_⟩⟩
@@ -166,7 +166,7 @@ theorem gstep_spec (topic : α → Option Bytes) (partition : α → Int) (out :
     · exact ⟨(topic x, [(partition x, x)]), by simp, rfl, (partition x, x), by simp, rfl⟩
     · intro ⟨e, he, het, _⟩
       exact ht (List.mem_map.mpr ⟨e, he, het⟩)
-    · simp [payloadCount_append, payloadCount]
+    · simp [payloadCount]
 
 /-! ## the whole fold -/
 
